@@ -402,10 +402,322 @@ def r3_rbgeom(ctx):
     ctx.check(ok, "rbmove: modes about a new reference = modes @ rbgeom(old reference about new reference)", mv, detail)
 
 
+# ------------------------------------------------------------------------------------------------ R2: rbgeom_uset local frames
+_ELEM = __import__("re").compile(r"^(.*)\[(-?\d+)\]$")
+
+
+def _family(v):
+    """an element `X[k]` of a 3-vector (constant k) -> maker(j) of its siblings, else None"""
+    d = G.single_atom(v) if G.is_rat(v) else None
+    if d is None:
+        return None
+    if d[0] == "s":
+        m = _ELEM.match(d[1])
+        if m:
+            return lambda j, nm=m.group(1): F.sym(f"{nm}[{j}]")
+        return None
+    if d[0] == "fn" and d[1] == "idx" and len(d[2]) == 2:
+        base, k = G._arg(d[2][0]), G._arg(d[2][1])
+        if G.int_of(k) is not None:
+            return lambda j, b=base: F.fn("idx", b, F.const(j))
+    return None
+
+
+def _loop_rows(ev, lp):
+    """rows of one array stored during one generic iteration -> (array id, base row value, {offset: final value}, [row symbol names])"""
+    log = ev.sh.rowlog[lp["rows"][0]:lp["rows"][1]]
+    by = {}
+    for buf, e, val, st in log:
+        by.setdefault(buf, []).append(e)
+    cand = [(len(v), k) for k, v in by.items() if k.startswith("zeros#")]
+    if not cand:
+        return None
+    buf = max(cand)[1]
+    es = by[buf]
+    offs = [G.int_of(e - es[0]) for e in es]
+    if any(o is None for o in offs):
+        return None
+    base = es[0] + min(offs)
+    final, names = {}, []
+    for k in range(6):
+        e = base + k
+        names.append(f"{buf}[{e!r}]")
+        final[k] = ev.sh.memory.get((buf, G.vkey(e)), F.sym(names[-1]))
+    return buf, base, final, names
+
+
+def _loop_matrix(ev, lp):
+    r = _loop_rows(ev, lp)
+    if r is None:
+        return None
+    buf, base, final, names = r
+    M = []
+    for k in range(6):
+        cs = G.linear_in(final[k], names)
+        if cs is None:
+            return None
+        M.append(tuple(cs))
+    return base, tuple(M)
+
+
+def _atan2_calls(ev, lp):
+    return [c for c in ev.calls[lp["calls"][0]:lp["calls"][1]] if c[0] in G.ATAN2]
+
+
+_OFF_AXIS = [(1, 0, 0), (-1, 0, 0), (0, 1, 0), (0, -1, 0), (1, 1, 0), (1, -1, 0), (-1, 1, 0), (-1, -1, 0), (-1, 0, 2), (0, -1, -3),
+             (1, 0, -1), (0, 2, -2), (3, -3, 1), (-3, 4, -5), (3, 4, 5), (Fraction(1, 1000), 0, 0), (0, Fraction(-1, 1000), 0),
+             (Fraction(1, 1000), Fraction(-1, 1000), 5)]
+
+
+def r2_local_frames(ctx):
+    fn = ctx.src.func(N2P, "rbgeom_uset")
+    inline = _inline(ctx)
+
+    def lib_truth(v, node, ev):
+        def atom(x):
+            q = G.fn_parts(x)
+            if q is not None and q[0] in ("any", "all", "call:any", "call:np.any"):
+                return True          # "there are such grids": the regime in which every block of the function runs
+            return None
+        return G.truth_of(v, atom)
+
+    paths = [ev for ev in G.explore(ctx, N2P, fn, truth=lib_truth, inline=inline) if not ev.raised]
+    if not paths:
+        raise AnchorError("rbgeom_uset: no regime returns")
+    gen = max(paths, key=lambda ev: (len([c for c in ev.calls if c[0] in G.ATAN2]), len(ev.sh.rowlog)))
+    U = gen.sh.envs[0].get("uset")
+    if not G.is_rat(U):
+        raise Unsupported("rbgeom_uset: the (row-selected) USET table")
+    iloc = F.fn("attr:iloc", U)
+    tail = G.slice_value(F.const(1), None, None)
+
+    def A(b):
+        return F.fn("attr:T", F.fn("idx", iloc, F.fn("tuple", G.slice_value(b + 3, b + 6, None), tail)))
+
+    def X(b):
+        return F.fn("idx", iloc, F.fn("tuple", b, tail))
+    # ---- the rectangular step
+    rect = [lp for lp in gen.sh.loops if lp["depth"] == 0 and not _atan2_calls(gen, lp) and _loop_rows(gen, lp) is not None]
+    rbcall = [c for c in gen.calls if c[0] == "rbgeom"]
+    ok, detail = len(rect) == 1 and len(rbcall) == 1, None
+    if ok:
+        buf, b, final, names = _loop_rows(gen, rect[0])
+        rbv = gen.ev(rbcall[0][3])
+        for k in range(6):
+            if not G.same(final[k], A(b) * F.fn("idx", rbv, b + k)):
+                ok, detail = False, {"row": k, "value": _show(final[k])}
+                break
+    ctx.check(ok, "rbgeom_uset: the basic rigid-body rows of every grid are taken to its output system with the transpose of that grid's own 3x3 "
+                  "(table rows 3..5, columns x, y, z), translations and rotations alike", rect[0]["node"] if rect else fn, detail)
+    # ---- the cylindrical / spherical fix-ups
+    loops = [lp for lp in gen.sh.loops if lp["depth"] == 0 and _atan2_calls(gen, lp)]
+    want_type = gen.expr('uset.loc[(slice(None), 2), "y"]')
+    rho, phi, zz, Rr, th = F.sym("rho"), F.sym("phi"), F.sym("zeta"), F.sym("Rr"), F.sym("theta")
+    o, i1 = F.const(0), F.const(1)
+    frames = {
+        2: ("cylindrical", {0: rho * F.cos(phi), 1: rho * F.sin(phi), 2: zz},
+            ((F.cos(phi), F.sin(phi), o), (-F.sin(phi), F.cos(phi), o), (o, o, i1)), "[e_r, e_theta, e_z]"),
+        3: ("spherical", {0: Rr * F.sin(th) * F.cos(phi), 1: Rr * F.sin(th) * F.sin(phi), 2: Rr * F.cos(th)},
+            ((F.sin(th) * F.cos(phi), F.sin(th) * F.sin(phi), F.cos(th)), (F.cos(th) * F.cos(phi), F.cos(th) * F.sin(phi), -F.sin(th)),
+             (-F.sin(phi), F.cos(phi), o)), "[e_R, e_theta, e_phi]"),
+    }
+    rule = G.atan2_rule([phi, th], [rho, Rr, Rr * F.sin(th)])
+    found = {}
+    info = []
+    for lp in loops:
+        eqs = [args for args in G.fn_atoms(lp["iter"], "cmp:Eq") if any(G.int_of(a) is not None for a in args if G.is_rat(a))] \
+            if G.is_rat(lp["iter"]) else []
+        if len(eqs) != 1:
+            ctx.error("rbgeom_uset: selection of the grids of a local-frame fix-up", lp["node"], _show(lp["iter"]))
+            continue
+        code = next(G.int_of(a) for a in eqs[0] if G.int_of(a) is not None)
+        src = next(a for a in eqs[0] if G.int_of(a) is None)
+        calls = _atan2_calls(gen, lp)
+        fam = _family(calls[0][1][0]) or _family(calls[0][1][1])
+        mat = _loop_matrix(gen, lp)
+        if code not in frames or fam is None or mat is None:
+            ctx.error("rbgeom_uset: local-frame fix-up", lp["node"], {"type code": code, "first atan2": _show(calls[0][1]), "rows": mat is not None})
+            continue
+        found[code] = G.same(src, want_type)
+        label, par, frame, fname = frames[code]
+        b, M = mat
+        l = [fam(j) for j in range(3)]
+        lids = [G.atom_id(x) for x in l]
+        info.append((lp, code, lids, M, calls))
+        # local position of the grid in its output system
+        locv = None
+        d0 = G.single_atom(l[0])
+        if d0[0] == "s":
+            nm = _ELEM.match(d0[1]).group(1)
+            locv = next((v for n_, v, _ in gen.sh.inits[lp["inits"][0]:lp["inits"][1]][::-1] if n_ == nm), None)
+        else:
+            locv = G._arg(d0[2][0])
+        want = G.matmul(A(b), X(b) - X(b + 2))
+        ok = G.same(locv, want)
+        ctx.check(ok, f"rbgeom_uset ({label}): the local position of a grid is (its own 3x3).T @ (grid location - origin of its output system), "
+                      "rows 0 and 2 of the grid's table block", lp["node"], None if ok else _show(locv))
+        # frame in the generic regime (off the polar axis)
+        leaf = {lids[j]: par[j] for j in range(3)}
+        Mp = G.rebuild(M, leaf, rule)
+        tt = tuple(r[:3] for r in Mp[:3])
+        rr = tuple(r[3:] for r in Mp[3:])
+        cross = all(x.is_zero() for r in Mp[:3] for x in r[3:]) and all(x.is_zero() for r in Mp[3:] for x in r[:3])
+        ok = cross and G.same(tt, frame)
+        ctx.check(ok, f"rbgeom_uset ({label}): the translational rows of a grid off the polar axis are rotated into the local frame {fname} at the "
+                      "grid's position (rows = unit vectors; azimuth = atan2(local y, local x)"
+                      + (", polar angle = atan2(in-plane radius, local z))" if code == 3 else ")"), lp["node"], None if ok else _show(tt, 900))
+        ok = cross and G.same(rr, frame)
+        ctx.check(ok, f"rbgeom_uset ({label}): the rotational rows are rotated by the same frame as the translational rows", lp["node"],
+                  None if ok else _show(rr, 900))
+    ok = found.get(2) is True and found.get(3) is True and len(loops) == 2
+    ctx.check(ok, "rbgeom_uset: cylindrical grids are those whose output-system type (table row 2, column y) is 2, spherical 3 - the same codes that "
+                  "_get_loc_a_basic and getcoordinates dispatch on", fn, None if ok else {str(k): v for k, v in found.items()})
+    # ---- the polar-axis short cuts, decided at the points of a witness table
+    names = {(2, 0): "cylindrical azimuth", (3, 0): "spherical azimuth", (3, 1): "spherical polar angle"}
+    verdict = {}
+    for lp, code, lids, M, calls in info:
+        for n, c in enumerate(calls):
+            verdict[(code, n, id(c[3]))] = [names.get((code, n), f"angle {n + 1} of type {code}"), c[3], []]
+    und = []
+    allids = sorted({x for _, _, lids, _, _ in info for x in lids})
+    for w in _OFF_AXIS:
+        w = tuple(Fraction(x) for x in w)
+
+        def truth(v, node, ev, w=w):
+            r = lib_truth(v, node, ev)
+            if r is not None or not info:
+                return r
+            for _, _, lids, _, _ in info:
+                if G.is_rat(v) and any(aid in lids for aid, _ in G.atoms_of(v)):
+                    try:
+                        return G.conc(v, dict(zip(lids, w))) != 0
+                    except G.Undecided as e:
+                        und.append(f"{ast.unparse(node)} at {tuple(map(str, w))}: {e}")
+                        return None
+            return None
+        wpaths = [ev for ev in G.explore(ctx, N2P, fn, truth=truth, inline=inline, presets=gen.decisions) if not ev.raised]
+        for ev in wpaths:
+            for lp, code, lids, M, calls in info:
+                lw = [x for x in ev.sh.loops if x["node"] is lp["node"]]
+                mw = _loop_matrix(ev, lw[0]) if lw else None
+                if lw and mw is None and not any(r_[0].startswith("zeros#") for r_ in ev.sh.rowlog[lw[0]["rows"][0]:lw[0]["rows"][1]]):
+                    mw = (None, tuple(tuple(F.const(int(p_ == q_)) for q_ in range(6)) for p_ in range(6)))      # nothing was rotated
+                asg = dict(zip(lids, w))
+                try:
+                    if mw is not None:
+                        a_, b_ = G.conc(mw[1], asg), G.conc(M, asg)
+                        differs = any(abs(p - q) > Fraction(1, 10 ** 12) for p, q in zip(G._flat(a_), G._flat(b_)))
+                    else:
+                        differs = True
+                except G.Undecided as e:
+                    und.append(f"frame at {tuple(map(str, w))}: {e}")
+                    continue
+                if not differs:
+                    continue
+                reached = {id(c[3]) for c in (_atan2_calls(ev, lw[0]) if lw else [])}
+                missing = [k for k in verdict if k[0] == code and k[2] not in reached]
+                tests = [f"{ast.unparse(n)} is {d}" for v, n, d in ev.sh.asked[lw[0]["asked"][0]:lw[0]["asked"][1]]
+                         if G.is_rat(v) and any(aid in lids for aid, _ in G.atoms_of(v))] if lw else []
+                for k in (missing or [k for k in verdict if k[0] == code]):
+                    verdict[k][2].append({"local position": [str(x) for x in w], "tests": tests})
+    if und:
+        ctx.error("rbgeom_uset: polar-axis tests at the witness points", fn, und[:6])
+    for (code, n, _), (name, node, bad) in verdict.items():
+        ctx.check(not bad, f"rbgeom_uset: the rotation by the {name} is skipped only when both arguments of its atan2 vanish (the grid is on the polar axis)",
+                  node, None if not bad else {"counterexamples": bad[:4],
+                                              "consequence": "a grid off the axis is left in the rectangular frame of its output system"})
+
+
+# ------------------------------------------------------------------------------------------------ R4: formrbe3 DOF order
+def _uset_derived(v):
+    return any(d[0] == "s" and (d[1] == "uset" or d[1].startswith("uset.")) for _, d in G.atoms_of(v))
+
+
+def _row_selections(v):
+    """row selectors applied to the USET table inside a value: [selector value] for every table[rows, ...] / table.iloc[rows, ...] whose
+    row index is not the full slice"""
+    out = []
+    for _, d in G.atoms_of(v):
+        if d[0] != "fn" or d[1] != "idx" or len(d[2]) != 2:
+            continue
+        base, ix = G._arg(d[2][0]), G.untuple(G._arg(d[2][1]))
+        if not _uset_derived(base):
+            continue
+        bd = G.single_atom(base)
+        tableish = bd is not None and ((bd[0] == "s" and bd[1] in ("uset", "uset.iloc", "uset.loc", "uset.values", "uset.index")) or
+                                       (bd[0] == "fn" and bd[1] in ("attr:iloc", "attr:loc", "attr:index")))
+        if not tableish:
+            continue
+        rows = ix[0] if isinstance(ix, tuple) and ix else ix
+        if G.is_rat(rows) and G.as_slice(rows) == (None, None, None):
+            continue
+        out.append(rows)
+    return out
+
+
+def r4_rbe3_order(ctx):
+    fn = ctx.src.func(N2P, "formrbe3")
+    paths = [ev for ev in G.explore(ctx, N2P, fn, inline=_inline(ctx)) if not ev.raised]
+    if not paths:
+        raise AnchorError("formrbe3: no regime returns")
+    sites = {}
+    for ev in paths:
+        for name, pos, kws, node in ev.calls:
+            if not name.endswith("mat_intersect"):
+                continue
+            from .sem import place
+            a = place(pos, kws, ["D1", "D2", "keep"])
+            for k in ("D1", "D2"):
+                v = a.get(k)
+                if v is None or is_unknown(v) or isinstance(v, tuple) or not _uset_derived(v):
+                    continue
+                # a DOF list that was itself sorted by an earlier ordering step is not an order reference; the table's index is
+                if any(d[0] == "fn" and d[1].startswith("call:") and d[1].endswith("mat_intersect") for _, d in G.atoms_of(v)):
+                    continue
+                st = sites.setdefault(id(node), [node, [], []])
+                for sel in _row_selections(v):
+                    if G.fn_atoms(sel, "call:mkdofpv"):
+                        st[1].append(_show(sel, 240))
+                    else:
+                        st[2].append(_show(sel, 240))
+    if not sites:
+        raise AnchorError("formrbe3: no ordering step against the USET table (locate.mat_intersect with the table's [id, dof] index)")
+    for node, bad, unclear in sorted(sites.values(), key=lambda x: (x[0].lineno, x[0].col_offset)):
+        inst = "formrbe3: rows / columns are ordered against the [id, dof] index of the USET table in *table* order (a row selection made with " \
+               "mkdofpv(uset, 'p', <id list>) is in the order of the id list - `maintains the order of DOF as specified` - not of the table)"
+        if unclear and not bad:
+            ctx.error(inst, node, {"row selection of the reference table": unclear[0]})
+        else:
+            ctx.check(not bad, inst, node, None if not bad else {
+                "reference table rows": bad[0], "consequence": "for a table that is not stored in ascending-id order the matrix no longer maps the "
+                "independent DOF as they occur in the table to the dependent DOF"})
+
+
 RULES = [
     ("C14-R1", r1_inverse_pair, 10),
+    ("C14-R2", r2_local_frames, 8),
     ("C14-R3", r3_rbgeom, 4),
+    ("C14-R4", r4_rbe3_order, 3),
 ]
 LEVEL = "other"
-EXPLANATION = ""
-MANIFEST = {}
+EXPLANATION = ("Static, decided on values (verifier/c14_sem.py evaluates the functions on symbols, regime by regime, following loops, private helpers, "
+               "aliases and module constants): (R1) getcoordinates composed with _get_loc_a_basic is the identity on the entered coordinates for "
+               "rectangular, cylindrical and spherical systems with a general orientation (Euler-angle matrix, orthonormal by sin^2+cos^2=1) and origin, "
+               "and a quotient by sin/cos of the azimuth is formed only where its selecting test keeps the divisor away from zero; (R2) rbgeom_uset takes "
+               "each grid's rows to its output system, builds the local position from the grid's own table block, rotates translations and rotations "
+               "into the local cylindrical / spherical unit-vector frame, selects grids by the type codes 2 / 3, and skips a rotation only on the polar axis "
+               "(witness table of off-axis points); (R3) rbgeom's 6x6 block per grid is [[I, -[r x]], [0, I]] about a scalar or vector reference, the zero "
+               "short cut is taken only for the zero vector, rbmove composes with rbgeom; (R4) formrbe3 orders rows / columns against the USET index in "
+               "table order.")
+MANIFEST = {
+    "text": "Thin partial claim decided statically: (R1) forward/inverse point maps are algebraic inverses for rectangular, cylindrical and spherical systems "
+            "(any orientation and origin), with a sound divisor selection in the spherical inverse; (R2) rbgeom_uset expresses every grid in its own output "
+            "system: rectangular step, local position, cylindrical/spherical unit-vector frames applied to both row triplets, type codes 2/3, rotations "
+            "skipped only at the true polar axis; (R3) rbgeom is theta x r about the reference point, the shift is skipped only for the zero vector, rbmove "
+            "composes with rbgeom; (R4) formrbe3 sorts against the USET table in table order. "
+            "Not decided: reference-chain resolution (mkusetcoordinfo / build_coords), rbcoords, the least-squares solve of formrbe3, replace_basic_cs.",
+    "note": "Trusted: CPython ast; verifier/e2_formula.py; verifier/c14_sem.py. atan2(k sin u, k cos u) = u is used for k > 0 (R > 0, 0 < theta < 180 deg: "
+            "away from the polar singularities, as in the property's domain). Guards are refuted, never proved, at the points of a finite witness table "
+            "(exact rational arithmetic; square roots to 1e-30).",
+    "technique": "static symbolic evaluation and composition of the coordinate maps and rigid-body blocks; exact evaluation of extracted guards at witness points",
+}
